@@ -8,6 +8,7 @@ partitura's tables are used to compute expected values.
 
 import itertools
 import math
+import warnings
 from fractions import Fraction
 
 import numpy as np
@@ -48,36 +49,167 @@ def enum_spelling(tier):
             for octave in range(-1, 10):
                 for lower in (False, True):
                     out.append({"step": step.lower() if lower else step, "alter": alter, "octave": octave})
+                    # the same spelling as it comes out of a structured note array (numpy str / integer scalars)
+                    out.append({"step": step.lower() if lower else step, "alter": alter, "octave": octave, "form": "np"})
     return out
+
+
+def _acc_value(sign):
+    """Semitones of an accidental string written with # b x, or None when other characters occur."""
+    if not isinstance(sign, str) or any(c not in "#bx" for c in sign):
+        return None
+    return sum({"#": 1, "b": -1, "x": 2}[c] for c in sign)
 
 
 def oracle_spelling(spec):
     o = Outcome(nontrivial=spec["alter"] not in (None, 0))
     step, alter, octave = spec["step"], spec["alter"], spec["octave"]
     exp = 12 * (octave + 1) + BASE[step.upper()] + (alter or 0)
-    got = call(M.pitch_spelling_to_midi_pitch, step, alter, octave)
+    form = spec.get("form", "py")
+    o.cls("form:" + form)
+    if form == "np":
+        a_step, a_alter, a_octave = np.str_(step), (None if alter is None else np.int64(alter)), np.int32(octave)
+    else:
+        a_step, a_alter, a_octave = step, alter, octave
+    got = call(M.pitch_spelling_to_midi_pitch, a_step, a_alter, a_octave)
     if got != exp:
-        o.add("spelling-to-midi-wrong", got=got, expected=exp)
-    if step.isupper():
-        n = call(S.Note, step=step, octave=octave, alter=alter)
-        if n.midi_pitch != exp:
-            o.add("note-midi-pitch-wrong", got=n.midi_pitch, expected=exp)
-        if alter is not None and -2 <= alter <= 2:
-            pc = call(M.step2pc, step, alter)
-            if pc != exp % 12:
-                o.add("step2pc-wrong", got=pc, expected=exp % 12)
+        o.add("spelling-to-midi-wrong", got=int(got), expected=exp)
+    # Note documents that a lower case step is converted to upper case
+    o.cls("note-lower-case-step", step.islower())
+    n = call(S.Note, step=a_step, octave=a_octave, alter=a_alter)
+    if n.step != step.upper():
+        o.add("note-step-not-upper-case", got=str(n.step))
+    if n.midi_pitch != exp:
+        o.add("note-midi-pitch-wrong", got=int(n.midi_pitch), expected=exp)
+    if alter is None:
+        # alter defaults to None (unaltered)
+        o.cls("note-default-alter")
+        n2 = call(S.Note, a_step, a_octave)
+        if n2.midi_pitch != exp or n2.alter is not None:
+            o.add("note-default-alter-wrong", got=int(n2.midi_pitch), expected=exp)
+    # the accidental sign of the note: its characters add up to the alteration, and step + sign + octave
+    # (the text Note.__str__ prints) is a note name that reads back as the same spelling
+    sign = call(lambda: n.alter_sign)
+    if _acc_value(sign) != (alter or 0):
+        o.add("alter-sign-wrong", alter=alter, got=repr(sign))
+    elif octave >= 0:
+        o.cls("alter-sign-read-back")
+        back = call(M.note_name_to_pitch_spelling, "%s%s%d" % (n.step, sign, octave))
+        if tuple(back) != (step.upper(), alter or 0, octave):
+            o.add("alter-sign-name-not-read-back", alter=alter, sign=sign, back=list(back))
+    if step.isupper() and alter is not None:
+        pc = call(M.step2pc, a_step, a_alter)
+        if pc != exp % 12:
+            o.add("step2pc-wrong", got=int(pc), expected=exp % 12)
+    return o
+
+
+# ---------------------------------------------------------------- ensure_pitch_spelling_format
+# accidental spellings of the match file formats (n natural, s/# sharp, f/b flat, x double sharp, - none):
+# the value is the sum of the signs; this list is the documented table, the values are computed here
+SIGN_STRINGS = ["n", "ns", "nf", "#", "s", "ss", "x", "##", "###", "b", "f", "bb", "ff", "bbb", "-"]
+BAD_SIGN_STRINGS = ["q", "N", "natural", " ", "#b", "sss", "fff", "xx", "sf", "--"]
+SIGN_UNIT = {"n": 0, "s": 1, "#": 1, "f": -1, "b": -1, "x": 2}
+FORMAT_STEPS = list(STEPS) + list(STEPS.lower()) + ["r", "R", "H", "h", "X", ""]
+# (kind, value): how the alteration is handed over
+FORMAT_ALTERS = (
+    [["int", a] for a in range(-3, 4)]
+    + [["npint", a] for a in range(-3, 4)]
+    + [["none", None]]
+    + [["str", t] for t in SIGN_STRINGS + BAD_SIGN_STRINGS]
+)
+FORMAT_OCTAVES = [["int", -1], ["int", 4], ["int", 9], ["npint", 5], ["str", "0"], ["str", "4"], ["str", "10"], ["str", "-"], ["none", None], ["str", "x"]]
+
+
+def enum_format(tier):
+    return [
+        {"fstep": s, "falter": a, "foctave": oc}
+        for s in FORMAT_STEPS
+        for a in FORMAT_ALTERS
+        for oc in FORMAT_OCTAVES
+    ]
+
+
+def _typed(kind, value):
+    return np.int64(value) if kind == "npint" else value
+
+
+def oracle_format(spec):
+    step = spec["fstep"]
+    (ak, av), (ok, ov) = spec["falter"], spec["foctave"]
+    o = Outcome(nontrivial=ak == "str" or ok == "str")
+    o.cls("alter:" + ak)
+    o.cls("octave:" + ok)
+    o.cls("rest-step", step in ("r", "R"))
+    step_ok = step.lower() in ("c", "d", "e", "f", "g", "a", "b", "r") and step != ""
+    alter_ok, octave_ok = True, True
+    may_sum = None
+    if ak == "str":
+        if av in SIGN_STRINGS:
+            exp_alter = None if av == "-" else sum(SIGN_UNIT[c] for c in av)
+        else:
+            alter_ok = False
+            exp_alter = None
+            if av and all(c in SIGN_UNIT for c in av):
+                may_sum = sum(SIGN_UNIT[c] for c in av)
+    else:
+        exp_alter = av
+    if ok == "str":
+        if ov == "-":
+            exp_octave = None
+        elif ov.isdigit():
+            exp_octave = int(ov)
+        else:
+            octave_ok = False
+            exp_octave = None
+    else:
+        exp_octave = ov
+    valid = step_ok and alter_ok and octave_ok
+    o.cls("valid-format-input", valid)
+    o.cls("invalid-step", not step_ok)
+    o.cls("invalid-alter-string", not alter_ok)
+    try:
+        got = M.ensure_pitch_spelling_format(step, _typed(ak, av), _typed(ok, ov))
+        raised = None
+    except ValueError as e:
+        raised = e
+    if valid:
+        if raised is not None:
+            o.add("spelling-format-valid-rejected", spec=spec, exc=repr(raised)[:200])
+            return o
+        g_step, g_alter, g_octave = got
+        if g_step != step.upper():
+            o.add("spelling-format-step-wrong", spec=spec, got=repr(g_step))
+        if g_alter != exp_alter or isinstance(g_alter, bool) or not (g_alter is None or isinstance(g_alter, (int, np.integer))):
+            o.add("spelling-format-alter-wrong", alter=av, got=repr(g_alter), expected=exp_alter)
+        if g_octave != exp_octave or not (g_octave is None or isinstance(g_octave, (int, np.integer))):
+            o.add("spelling-format-octave-wrong", octave=ov, got=repr(g_octave), expected=exp_octave)
+        if step_ok and step.lower() != "r" and exp_alter is not None and exp_octave is not None:
+            # the normalised spelling sounds what the signs say
+            mp = call(M.pitch_spelling_to_midi_pitch, g_step, g_alter, g_octave)
+            if mp != 12 * (exp_octave + 1) + BASE[step.upper()] + exp_alter:
+                o.add("spelling-format-midi-wrong", spec=spec, got=int(mp))
+    elif raised is None:
+        # an accidental text outside the table may be read by the sum of its signs, never as something else
+        if step_ok and octave_ok and may_sum is not None and got[1] == may_sum:
+            return o
+        o.add("spelling-format-invalid-accepted", spec=spec, got=repr(got))
     return o
 
 
 # ---------------------------------------------------------------- midi -> spelling -> midi
 def enum_midi(tier):
-    return [{"midi": p} for p in range(128)]
+    # Python ints and the integer scalars that come out of note arrays ("pitch" is an i4 column)
+    return [{"midi": p} for p in range(128)] + [{"midi": p, "form": f} for p in range(128) for f in ("int32", "int64")]
 
 
 def oracle_midi(spec):
     p = spec["midi"]
     o = Outcome(nontrivial=p % 12 in (1, 3, 6, 8, 10))
-    step, alter, octave = call(M.midi_pitch_to_pitch_spelling, p)
+    form = spec.get("form", "py")
+    o.cls("form:" + form)
+    arg = p if form == "py" else np.dtype(form).type(p)
+    step, alter, octave = call(M.midi_pitch_to_pitch_spelling, arg)
     if step not in STEPS or not isinstance(step, str):
         o.add("midi-to-spelling-bad-step", got=step)
         return o
@@ -96,16 +228,47 @@ ACC_STRINGS = {"": 0, "#": 1, "##": 2, "x": 2, "###": 3, "b": -1, "bb": -2, "bbb
 MIXED = ["x#", "#b", "b#", "xb", "xx", "#x", "bx", "####", "bbbb"]
 
 
+# strings that contain no <pitch class>(alteration)<octave> anywhere: the parser documents ValueError for them
+OUTSIDE_GRAMMAR = (
+    [s.lower() + a + "4" for s in STEPS for a in ("", "#", "b")]
+    + [s + a for s in STEPS for a in ("", "#", "b", "x", "-1", "#-1", " 4", "n4", "s4", "f4", "-", ".5")]
+    + ["", "4", "44", "#4", "b", "H4", "h4", "R4", "r", "S#3", "4#", " ", "#", "x", "-1"]
+)
+
+
 def enum_names(tier):
     out = []
     for step in STEPS:
         for acc in list(ACC_STRINGS) + MIXED:
             for octave in list(range(0, 11)) + [12, 15]:
                 out.append({"name": "%s%s%d" % (step, acc, octave), "step": step, "acc": acc, "octave": octave})
+    out += [{"outside": t} for t in OUTSIDE_GRAMMAR]
+    # formatting a spelling whose alteration is None (unaltered, the default of score.Note)
+    out += [{"format_none": [step, octave]} for step in STEPS for octave in (0, 4, 9)]
     return out
 
 
+def known_note_name_alter_none(spec, d):
+    return "format_none" in spec and d.kind.startswith("sut-raised:TypeError@utils/music.py:pitch_spelling_to_note_name")
+
+
 def oracle_names(spec):
+    if "outside" in spec:
+        o = Outcome(nontrivial=True, classes=["outside-grammar"])
+        for fn in (M.note_name_to_pitch_spelling, M.note_name_to_midi_pitch):
+            try:
+                got = fn(spec["outside"])
+            except ValueError:
+                continue
+            o.add("note-name-outside-grammar-accepted", name=spec["outside"], fn=fn.__name__, got=repr(got))
+        return o
+    if "format_none" in spec:
+        o = Outcome(nontrivial=True, classes=["format-alter-none"])
+        step, octave = spec["format_none"]
+        text = call(M.pitch_spelling_to_note_name, step, None, octave)
+        if text != "%s%d" % (step, octave):
+            o.add("note-name-alter-none-wrong", got=text)
+        return o
     acc = spec["acc"]
     o = Outcome(nontrivial=acc != "")
     name = spec["name"]
@@ -125,6 +288,9 @@ def oracle_names(spec):
         if acc in ("", "#", "x", "b", "bb", "###", "bbb") and text != name:
             # canonical accidental strings are reproduced
             o.add("note-name-not-canonical", name=name, text=text)
+        # a lower case step is written in upper case
+        if call(M.pitch_spelling_to_note_name, exp[0].lower(), exp[1], exp[2]) != text:
+            o.add("note-name-lower-case-step-differs", spelling=list(exp))
     else:
         o.cls("mixed-accidental-string")
         # not in the table of accidental spellings: must be rejected or summed, never mis-read
@@ -151,7 +317,15 @@ def enum_keys(tier):
     for f in range(-12, 13):
         for m in range(len(MODES) + len(BAD_MODES)):
             out.append({"fifths": f, "mode_index": m})
+            # as read from the ks_fifths / ks_mode columns of a note array (i4), by keyword
+            out.append({"fifths": f, "mode_index": m, "form": "np32"})
+        # mode omitted: documented default None = major
+        out.append({"fifths": f, "mode_index": None})
     for f in range(-7, 8):
+        for minor in (False, True):
+            out.append({"name": ref_key_name(f, minor), "fifths": f, "minor": minor})
+    # names beyond the thirty (the docstring's own example is E#): the parser continues the circle of fifths
+    for f in list(range(-14, -7)) + list(range(8, 15)):
         for minor in (False, True):
             out.append({"name": ref_key_name(f, minor), "fifths": f, "minor": minor})
     return out
@@ -160,6 +334,7 @@ def enum_keys(tier):
 def oracle_keys(spec):
     if "name" in spec:
         o = Outcome(nontrivial=True, classes=["name->fifths"])
+        o.cls("name-beyond-the-thirty", abs(spec["fifths"]) > 7)
         f, mode = call(M.key_name_to_fifths_mode, spec["name"])
         if (f, mode) != (spec["fifths"], "minor" if spec["minor"] else "major"):
             o.add("key-name-parse-wrong", name=spec["name"], got=[f, mode])
@@ -167,16 +342,31 @@ def oracle_keys(spec):
     f = spec["fifths"]
     mi = spec["mode_index"]
     allm = MODES + BAD_MODES
-    mode = allm[mi]
-    good_mode = mi < len(MODES)
+    default_mode = mi is None
+    mode = None if default_mode else allm[mi]
+    good_mode = default_mode or mi < len(MODES)
+    form = spec.get("form", "py")
     o = Outcome(nontrivial=(abs(f) > 7 or not good_mode or mode in ("minor", -1)))
     o.cls("out-of-range-fifths", abs(f) > 7)
     o.cls("unknown-mode", not good_mode)
+    o.cls("mode-omitted", default_mode)
+    o.cls("form:" + form)
     minor = mode in ("minor", -1)
-    for label, fn in (
-        ("fifths_mode_to_key_name", lambda: M.fifths_mode_to_key_name(f, mode)),
-        ("KeySignature.name", lambda: S.KeySignature(f, mode).name),
-    ):
+    if form == "np32":
+        a_f = np.int32(f)
+        a_mode = np.int32(mode) if isinstance(mode, int) and not isinstance(mode, bool) else mode
+        fns = (
+            ("fifths_mode_to_key_name", lambda: M.fifths_mode_to_key_name(fifths=a_f, mode=a_mode)),
+            ("KeySignature.name", lambda: S.KeySignature(fifths=a_f, mode=a_mode).name),
+        )
+    elif default_mode:
+        fns = (("fifths_mode_to_key_name", lambda: M.fifths_mode_to_key_name(f)),)
+    else:
+        fns = (
+            ("fifths_mode_to_key_name", lambda: M.fifths_mode_to_key_name(f, mode)),
+            ("KeySignature.name", lambda: S.KeySignature(f, mode).name),
+        )
+    for label, fn in fns:
         try:
             name = fn()
             raised = None
@@ -210,6 +400,9 @@ def enum_codes(tier):
     out = [{"mode": i} for i in range(len(MODES) + len(BAD_MODES))]
     out += [{"clef": s} for s in ["G", "F", "C", "percussion", "TAB", "jianpu", "none"]]
     out += [{"clef_int": i} for i in range(0, 7)]
+    # codes as they come out of Part.clef_map / note feature arrays (numpy integers), modes from i4 columns
+    out += [{"clef_int": i, "form": "np"} for i in range(0, 7)]
+    out += [{"mode": i, "form": "np"} for i, m in enumerate(MODES + BAD_MODES) if isinstance(m, int)]
     return out
 
 
@@ -218,6 +411,9 @@ def oracle_codes(spec):
     if "mode" in spec:
         allm = MODES + BAD_MODES
         mode = allm[spec["mode"]]
+        if spec.get("form") == "np":
+            o.cls("mode:numpy-int")
+            mode = np.int32(mode)
         good = spec["mode"] < len(MODES)
         minor = mode in ("minor", -1)
         for fn, exp in ((M.key_mode_to_int, -1 if minor else 1), (M.key_int_to_mode, "minor" if minor else "major")):
@@ -243,7 +439,13 @@ def oracle_codes(spec):
         elif call(M.clef_int_to_sign, code) != spec["clef"]:
             o.add("clef-code-roundtrip", clef=spec["clef"], code=code)
     else:
-        sign = call(M.clef_int_to_sign, spec["clef_int"])
+        code = spec["clef_int"]
+        if spec.get("form") == "np":
+            o.cls("clef-code:numpy-int")
+            code = np.int64(code)
+        sign = call(M.clef_int_to_sign, code)
+        if sign not in ["G", "F", "C", "percussion", "TAB", "jianpu", "none"]:
+            o.add("clef-code-decodes-to-undocumented-sign", code=spec["clef_int"], sign=repr(sign))
         if call(M.clef_sign_to_int, sign) != spec["clef_int"]:
             o.add("clef-code-roundtrip", code=spec["clef_int"], sign=sign)
     return o
@@ -280,14 +482,21 @@ def enum_durs(tier):
         for dots in range(4):
             for ri in range(len(RATIOS)):
                 out.append({"type": t, "dots": dots, "ratio": ri})
-    for at in ("quarter", "eighth", "16th", "half"):
-        for nt in ("quarter", "eighth", "16th", "half"):
+    # all symbolic types on both sides of the ratio, and a tuplet without types (both None, the default)
+    for at in list(TYPES) + [None]:
+        for nt in list(TYPES) if at is not None else [None]:
             for (a, n) in RATIOS[1:]:
                 out.append({"tuplet": [a, n, at, nt]})
     for unit in TYPES:
         for dots in range(4):
             for bpm in (1, 40, 60, 90.5, 120, 333):
                 out.append({"unit": unit, "udots": dots, "bpm": bpm})
+            # unit strings with surrounding blanks (to_quarter_tempo strips them)
+            for pad in (1, 2, 3):
+                out.append({"unit": unit, "udots": dots, "bpm": 72, "pad": pad})
+    # Tempo without a unit (default None = quarters)
+    for bpm in (1, 40, 60, 90.5, 120, 333):
+        out.append({"tempo_default_unit": bpm})
     return out
 
 
@@ -296,20 +505,40 @@ def oracle_durs(spec):
     if "tuplet" in spec:
         a, n, at, nt = spec["tuplet"]
         o.nontrivial = at != nt
-        tup = call(S.Tuplet, actual_notes=a, normal_notes=n, actual_type=at, normal_type=nt)
+        o.cls("tuplet-types-differ", at != nt)
+        o.cls("tuplet-without-types", at is None)
+        if at is None:
+            tup = call(S.Tuplet, actual_notes=a, normal_notes=n)
+            exp = Fraction(n, a)
+        else:
+            tup = call(S.Tuplet, actual_notes=a, normal_notes=n, actual_type=at, normal_type=nt)
+            exp = Fraction(n, a) * TYPES[nt] / TYPES[at]
         got = call(lambda: tup.duration_multiplier)
-        exp = Fraction(n, a) * TYPES[nt] / TYPES[at]
         if Fraction(got) != exp:
             o.add("tuplet-multiplier-wrong", spec=spec["tuplet"], got=str(got), expected=str(exp))
         return o
+    if "tempo_default_unit" in spec:
+        bpm = spec["tempo_default_unit"]
+        o.nontrivial = True
+        o.cls("tempo-default-unit")
+        for tempo in (call(S.Tempo, bpm), call(S.Tempo, bpm, None)):
+            mpq = call(lambda: tempo.microseconds_per_quarter)
+            e = Fraction(60 * 10 ** 6) / Fraction(bpm)
+            if not isinstance(mpq, (int, np.integer)) or abs(Fraction(int(mpq)) - e) > Fraction(1, 2) + Fraction(1, 10 ** 6):
+                o.add("tempo-mpq-wrong", unit=None, bpm=bpm, got=repr(mpq), expected=float(e))
+        return o
     if "unit" in spec:
         unit = spec["unit"] + "." * spec["udots"]
+        pad = spec.get("pad", 0)
+        o.cls("unit-with-blanks", pad > 0)
+        unit = (" " if pad & 1 else "") + unit + (" " if pad & 2 else "")
         o.nontrivial = spec["udots"] > 0 or spec["unit"] not in ("q", "quarter")
         exp = Fraction(spec["bpm"]) * dotmul(spec["udots"]) * TYPES[spec["unit"]]
         got = call(M.to_quarter_tempo, unit, spec["bpm"])
         if abs(Fraction(got) - exp) > Fraction(1, 10 ** 9) * (1 + exp):
             o.add("tempo-unit-wrong", unit=unit, bpm=spec["bpm"], got=got, expected=float(exp))
-        if spec["unit"] in ("q", "h", "e"):
+        if True:  # every unit string is a unit of score.Tempo as well
+            o.cls("tempo-object-long-unit-name", spec["unit"] not in ("q", "h", "e"))
             tempo = call(S.Tempo, spec["bpm"], unit)
             mpq = call(lambda: tempo.microseconds_per_quarter)
             e = Fraction(60 * 10 ** 6) / exp
@@ -356,26 +585,50 @@ def enum_intervals(tier):
     out = []
     for n in range(1, 8):
         for q in ALL_Q:
-            for d in ("up", "down", "sideways"):
+            for d in ("up", "down", "sideways", None):  # None: direction omitted (default "up")
                 out.append({"number": n, "quality": q, "direction": d})
+    # compound numbers (the docstring lists "1, 2, ..., 7, ..." and validate reduces them to a class)
+    for n in range(8, 16):
+        for q in ALL_Q:
+            out.append({"number": n, "quality": q, "direction": "up"})
     return out
 
 
 def oracle_intervals(spec):
     n, q, d = spec["number"], spec["quality"], spec["direction"]
-    table = Q_PERFECT if n in (1, 4, 5) else Q_MAJOR
-    valid = q in table and d in ("up", "down")
+    simple = (n - 1) % 7 + 1
+    table = Q_PERFECT if simple in (1, 4, 5) else Q_MAJOR
+    valid = q in table and d in ("up", "down", None)
     o = Outcome(nontrivial=valid and q not in ("P", "M"))
-    o.cls("valid-interval-class", valid)
+    o.cls("valid-interval-class", valid and n <= 7)
+    o.cls("direction-omitted", d is None)
+    o.cls("compound-number", n > 7)
     try:
-        iv = S.Interval(n, q, d)
+        iv = S.Interval(n, q) if d is None else S.Interval(n, q, d)
         raised = False
     except AssertionError:
         raised = True
+    if valid and n > 7:
+        # a compound interval is not one of the interval classes of the quantifier: its construction is
+        # not demanded; if a size is reported it has to be the class size plus the octaves
+        if raised:
+            o.excluded.append("compound-interval-rejected")
+            return o
+        try:
+            got = iv.semitones
+        except KeyError:
+            o.excluded.append("compound-interval-has-no-size")
+            return o
+        exp = 12 * ((n - 1) // 7) + MAJ_SEMI[simple - 1] + table[q]
+        if got != exp:
+            o.add("interval-semitones-wrong", spec=spec, got=got, expected=exp)
+        return o
     if valid:
         if raised:
             o.add("interval-valid-rejected", spec=spec)
             return o
+        if d is None and iv.direction != "up":
+            o.add("interval-default-direction-wrong", got=repr(iv.direction))
         exp = MAJ_SEMI[n - 1] + table[q]
         got = call(lambda: iv.semitones)
         if got != exp:
@@ -441,19 +694,67 @@ def strat_ticks(tier):
             "times": st.lists(t, min_size=1, max_size=6),
             "tick_k": st.lists(st.integers(0, 10 ** 7), min_size=1, max_size=4),
             "dtype": st.sampled_from(["float64", "float32", "int64", "int32", "pyint", "pyfloat"]),
+            # how the arguments are handed over: positionally, by keyword, with the deprecated keyword t=,
+            # or with mpq and ppq omitted (documented defaults 500000 and 480)
+            "call": st.sampled_from(["positional", "positional", "keyword", "alias_t", "defaults"]),
+            # mpq as an int, as the float 60e6/bpm of the MIDI importers (also non-integral), or numpy scalars
+            "params": st.sampled_from(["int", "int", "mpq_float", "mpq_bpm", "numpy"]),
+            "bpm": st.one_of(st.sampled_from([60, 90, 100, 120, 132]), st.integers(20, 300), st.floats(20, 300, allow_nan=False)),
+            # the array argument: one-dimensional, empty, or a two-column (onset, offset) matrix
+            "shape": st.sampled_from(["1d", "1d", "empty", "2d"]),
+            "tick_i4": st.booleans(),
+            "tick_f": st.lists(st.floats(0, 10 ** 6, allow_nan=False), min_size=1, max_size=3),
         }
     )
 
 
 def _exact_ticks(t, ppq, mpq):
-    return Fraction(t) * ppq * 10 ** 6 / mpq
+    return Fraction(t) * ppq * 10 ** 6 / Fraction(mpq)
 
 
 def oracle_ticks(spec):
     ppq, mpq = spec["ppq"], spec["mpq"]
     dt = spec["dtype"]
+    how = spec.get("call", "positional")
+    params = spec.get("params", "int")
+    shape = spec.get("shape", "1d")
+    if how == "defaults":
+        ppq, mpq = 480, 500000
+        a_ppq, a_mpq = ppq, mpq
+    elif params == "mpq_float":
+        mpq = mpq + 0.25
+        a_ppq, a_mpq = ppq, mpq
+    elif params == "mpq_bpm":
+        mpq = 60 * (10 ** 6 / spec.get("bpm", 120))
+        a_ppq, a_mpq = ppq, mpq
+    elif params == "numpy":
+        a_ppq, a_mpq = np.int64(ppq), np.int64(mpq)
+    else:
+        a_ppq, a_mpq = ppq, mpq
     o = Outcome(nontrivial=(dt not in ("pyfloat",)) or (ppq, mpq) != (480, 500000))
     o.cls("dtype:" + dt)
+    o.cls("call:" + how)
+    if how != "defaults":
+        o.cls("params:" + params)
+
+    def s2t(x):
+        if how == "defaults":
+            return call(M.seconds_to_midi_ticks, x)
+        if how == "keyword":
+            return call(M.seconds_to_midi_ticks, time_in_seconds=x, ppq=a_ppq, mpq=a_mpq)
+        if how == "alias_t":
+            with warnings.catch_warnings():
+                warnings.simplefilter("ignore")
+                return call(M.seconds_to_midi_ticks, t=x, mpq=a_mpq, ppq=a_ppq)
+        return call(M.seconds_to_midi_ticks, x, a_mpq, a_ppq)
+
+    def t2s(x):
+        if how == "defaults":
+            return call(M.midi_ticks_to_seconds, x)
+        if how in ("keyword", "alias_t"):
+            return call(M.midi_ticks_to_seconds, midi_ticks=x, ppq=a_ppq, mpq=a_mpq)
+        return call(M.midi_ticks_to_seconds, x, a_mpq, a_ppq)
+
     times = list(spec["times"])
     if dt in ("int64", "int32", "pyint"):
         times = [int(t) for t in times]
@@ -463,7 +764,7 @@ def oracle_ticks(spec):
     scal = []
     for t in times:
         arg = int(t) if dt in ("pyint",) else (float(t) if dt == "pyfloat" else np.dtype(dt if dt not in ("pyint", "pyfloat") else "float64").type(t))
-        got = call(M.seconds_to_midi_ticks, arg, mpq, ppq)
+        got = s2t(arg)
         exact = _exact_ticks(t, ppq, mpq)
         if isinstance(got, bool) or not isinstance(got, (int, np.integer)):
             o.add("ticks-not-integer", t=t, got=repr(got))
@@ -475,87 +776,200 @@ def oracle_ticks(spec):
         if abs(Fraction(int(got)) - exact) > tol:
             o.add("ticks-not-nearest", t=t, ppq=ppq, mpq=mpq, got=int(got), exact=float(exact))
         scal.append(int(got))
-        back = call(M.midi_ticks_to_seconds, got, mpq, ppq)
-        half_tick = Fraction(mpq, 2 * 10 ** 6 * ppq)
+        back = t2s(got)
+        half_tick = Fraction(mpq) / (2 * 10 ** 6 * ppq)
         if abs(Fraction(float(back)) - Fraction(t)) > 2 * half_tick * tol + Fraction(1, 10 ** 9) * (1 + abs(Fraction(t))):
             o.add("ticks-seconds-not-inverse", t=t, ppq=ppq, mpq=mpq, ticks=int(got), back=float(back))
     # array path
     if dt not in ("pyint", "pyfloat"):
-        arr = np.array(times, dtype=dt)
-        got = call(M.seconds_to_midi_ticks, arr, mpq, ppq)
+        o.cls("array-shape:" + shape)
+        if shape == "empty":
+            arr = np.array([], dtype=dt)
+            flat = []
+        elif shape == "2d":
+            arr = np.array([times, times[::-1]], dtype=dt).T
+            flat = [x for pair in zip(scal, scal[::-1]) for x in pair] if len(scal) == len(times) else None
+        else:
+            arr = np.array(times, dtype=dt)
+            flat = scal if len(scal) == len(times) else None
+        got = s2t(arr)
         if not isinstance(got, np.ndarray) or got.shape != arr.shape or not np.issubdtype(got.dtype, np.integer):
             o.add("ticks-array-bad-result", got=repr(got)[:100])
-        elif len(scal) == len(times) and [int(x) for x in got] != scal:
-            o.add("ticks-array-scalar-disagree", times=times, array=[int(x) for x in got], scalar=scal)
-    # exact tick images come back unchanged: seconds(k) -> k
+        elif flat is not None and [int(x) for x in got.ravel()] != flat:
+            o.add("ticks-array-scalar-disagree", times=times, array=[int(x) for x in got.ravel()], scalar=flat)
+    # exact tick images come back unchanged: seconds(k) -> k (stated for integral mpq)
     ks = spec["tick_k"]
     for k in ks:
-        sec = call(M.midi_ticks_to_seconds, k, mpq, ppq)
-        k2 = call(M.seconds_to_midi_ticks, sec, mpq, ppq)
+        sec = t2s(k)
+        k2 = s2t(sec)
         if int(k2) != k:
             o.add("tick-roundtrip-not-identity", k=k, ppq=ppq, mpq=mpq, sec=float(sec), back=int(k2))
     karr = np.array(ks, dtype=np.int64)
-    sec = call(M.midi_ticks_to_seconds, karr, mpq, ppq)
+    sec = t2s(karr)
     if not isinstance(sec, np.ndarray) or sec.shape != karr.shape:
         o.add("seconds-array-bad-result")
     else:
-        exp = [float(Fraction(k * mpq, 10 ** 6 * ppq)) for k in ks]
+        exp = [float(Fraction(k) * Fraction(mpq) / (10 ** 6 * ppq)) for k in ks]
         if not np.allclose(sec, exp, rtol=1e-12, atol=0):
             o.add("seconds-array-wrong", ks=ks, got=[float(x) for x in sec])
+    # ticks as they are stored in the tick columns of a performance note array (i4): scalars and arrays
+    if spec.get("tick_i4"):
+        o.cls("ticks-int32")
+        o.cls("ticks-int32-product-beyond-2^31", any(k * mpq >= 2 ** 31 for k in ks))
+        exp = [float(Fraction(k) * Fraction(mpq) / (10 ** 6 * ppq)) for k in ks]
+        with warnings.catch_warnings():
+            warnings.simplefilter("ignore")
+            got = [float(t2s(np.int32(k))) for k in ks]
+            gota = t2s(np.array(ks, dtype=np.int32))
+        if not np.allclose(got, exp, rtol=1e-12, atol=0):
+            o.add("seconds-from-int32-ticks-wrong", how="scalar", ks=ks, mpq=mpq, ppq=ppq, got=got, expected=exp)
+        if not isinstance(gota, np.ndarray) or gota.shape != (len(ks),) or not np.allclose(gota, exp, rtol=1e-12, atol=0):
+            o.add("seconds-from-int32-ticks-wrong", how="array", ks=ks, mpq=mpq, ppq=ppq, got=repr(gota)[:100], expected=exp)
+    # ticks given as floats (scalar and array) and an empty tick array
+    fs = spec.get("tick_f", [])
+    if fs:
+        exp = [float(Fraction(k) * Fraction(mpq) / (10 ** 6 * ppq)) for k in fs]
+        got = [float(t2s(k)) for k in fs]
+        if not np.allclose(got, exp, rtol=1e-12, atol=0):
+            o.add("seconds-from-float-ticks-wrong", ticks=fs, got=got, expected=exp)
+        got = t2s(np.array(fs, dtype=float))
+        if not isinstance(got, np.ndarray) or got.shape != (len(fs),) or not np.allclose(got, exp, rtol=1e-12, atol=0):
+            o.add("seconds-array-wrong", ks=fs, got=repr(got)[:100])
+        got = t2s(np.array([], dtype=np.int64))
+        if not isinstance(got, np.ndarray) or got.shape != (0,):
+            o.add("seconds-array-bad-result", got=repr(got)[:100])
     return o
+
+
+def known_ticks_int32(spec, d):
+    if d.kind != "seconds-from-int32-ticks-wrong":
+        return False
+    mpq = d["detail"]["mpq"]
+    return isinstance(mpq, int) and spec.get("params") != "numpy" and any(k * mpq >= 2 ** 31 for k in d["detail"]["ks"])
 
 
 # ---------------------------------------------------------------- frequency <-> midi
 def enum_freq(tier):
-    return [{"p": p, "a4": a} for p in range(128) for a in (440.0, 415.0, 430.54, 442, 466.16, 432)]
+    # a4 None: argument omitted (documented default 440 Hz)
+    return [{"p": p, "a4": a} for p in range(128) for a in (440.0, 415.0, 430.54, 442, 466.16, 432, None)]
+
+
+def known_freq_float32_none(spec, d):
+    return d.kind == "frequency-midi-not-inverse" and d["detail"].get("form") == "float32" and d["detail"].get("back") == "None"
 
 
 def oracle_freq(spec):
     p, a4 = spec["p"], spec["a4"]
     o = Outcome(nontrivial=a4 != 440.0)
-    f = call(M.midi_pitch_to_frequency, p, a4)
+    o.cls("a4-omitted", a4 is None)
+    if a4 is None:
+        a4 = 440.0
+        m2f = lambda x: call(M.midi_pitch_to_frequency, x)
+        f2m = lambda x: call(M.frequency_to_midi_pitch, x)
+    else:
+        m2f = lambda x: call(M.midi_pitch_to_frequency, x, a4)
+        f2m = lambda x: call(M.frequency_to_midi_pitch, x, a4)
+    f = m2f(p)
     exp = a4 * 2.0 ** ((p - 69) / 12.0)
     if not math.isclose(float(f), exp, rel_tol=1e-12):
         o.add("frequency-wrong", p=p, a4=a4, got=float(f), expected=exp)
-    back = call(M.frequency_to_midi_pitch, f, a4)
+    back = f2m(f)
     if back is None or isinstance(back, np.ndarray) or int(back) != p:
         o.add("frequency-midi-not-inverse", p=p, a4=a4, back=repr(back))
+    # the frequency as the other scalar types a caller holds: Python float, numpy double and single
+    # (an element of a float32 f0 track), Python int where the frequency is integral
+    forms = [("pyfloat", float(f)), ("float64", np.float64(f)), ("float32", np.float32(f))]
+    if float(f) == int(f):
+        forms.append(("pyint", int(f)))
+    for form, val in forms:
+        back = f2m(val)
+        if back is None or isinstance(back, (bool, np.ndarray)) or not isinstance(back, (int, np.integer)) or int(back) != p:
+            o.add("frequency-midi-not-inverse", p=p, a4=a4, form=form, back=repr(back))
+    # pitches as numpy integers and as fractional (detuned) values: documented "int, float or ndarray"
+    fq = m2f(np.int32(p))
+    if not math.isclose(float(fq), exp, rel_tol=1e-12):
+        o.add("frequency-wrong", p=p, a4=a4, form="int32", got=float(fq), expected=exp)
+    for det in (0.25, -0.25):
+        fq = m2f(p + det)
+        e = a4 * 2.0 ** ((p + det - 69) / 12.0)
+        if not math.isclose(float(fq), e, rel_tol=1e-12):
+            o.add("frequency-wrong", p=p + det, a4=a4, got=float(fq), expected=e)
+        elif int(f2m(fq)) != p:
+            o.add("frequency-midi-not-nearest", p=p, a4=a4, detune=det)
     if p % 16 == 0:
         arr = np.arange(p, min(p + 16, 128))
-        fa = call(M.midi_pitch_to_frequency, arr, a4)
-        ba = call(M.frequency_to_midi_pitch, fa, a4)
+        fa = m2f(arr)
+        ba = f2m(fa)
         if not isinstance(ba, np.ndarray) or list(map(int, ba)) != list(map(int, arr)):
             o.add("frequency-midi-array-not-inverse", p=p, a4=a4)
         # quarter-tone detuned frequencies still map to the nearest pitch
-        ba = call(M.frequency_to_midi_pitch, fa * 2 ** (0.4 / 12), a4)
+        ba = f2m(fa * 2 ** (0.4 / 12))
         if list(map(int, ba)) != list(map(int, arr)):
             o.add("frequency-midi-not-nearest", p=p, a4=a4)
+        # single precision and two-dimensional frequency arrays
+        for label, arg in (("float32", fa.astype(np.float32)), ("2d", fa.reshape(2, -1))):
+            ba = f2m(arg)
+            if not isinstance(ba, np.ndarray) or ba.shape != arg.shape or not np.issubdtype(ba.dtype, np.integer) or list(map(int, ba.ravel())) != list(map(int, arr)):
+                o.add("frequency-midi-array-not-inverse", p=p, a4=a4, form=label)
     return o
 
 
 SUBCHECKS = [
-    SubCheck("spelling_to_midi", oracle_spelling, enumerate=enum_spelling, shards=2, rule="all steps x alter None,-3..3 x octave -1..9 x letter case; non-trivial = altered"),
-    SubCheck("midi_to_spelling", oracle_midi, enumerate=enum_midi, shards=1, rule="all MIDI pitches 0..127; non-trivial = black key"),
-    SubCheck("note_names", oracle_names, enumerate=enum_names, shards=2, rule="all [A-G] x accidental strings x octaves; non-trivial = with accidental"),
+    SubCheck("spelling_to_midi", oracle_spelling, enumerate=enum_spelling, shards=2, rule="all steps x alter None,-3..3 x octave -1..9 x letter case x (Python / numpy scalars); Note, its default alter and its accidental sign; non-trivial = altered"),
+    SubCheck(
+        "spelling_format",
+        oracle_format,
+        enumerate=enum_format,
+        shards=2,
+        rule="ensure_pitch_spelling_format: steps (upper, lower, rest, invalid) x alterations (ints, numpy ints, None, all accidental texts of the table, invalid texts) x octaves (int, numpy int, text, '-', None, invalid); non-trivial = text input",
+    ),
+    SubCheck("midi_to_spelling", oracle_midi, enumerate=enum_midi, shards=1, rule="all MIDI pitches 0..127 as Python int, int32, int64; non-trivial = black key"),
+    SubCheck(
+        "note_names",
+        oracle_names,
+        enumerate=enum_names,
+        shards=2,
+        rule="all [A-G] x accidental strings x octaves; strings outside the grammar; alteration None; non-trivial = with accidental",
+        known={"note-name-alter-none": known_note_name_alter_none},
+    ),
     SubCheck(
         "keys",
         oracle_keys,
         enumerate=enum_keys,
         shards=1,
-        rule="fifths -12..12 x 6 accepted + 7 unknown mode spellings, and the 30 key names; non-trivial = minor, out of range or unknown mode",
+        rule="fifths -12..12 x (6 accepted + 7 unknown mode spellings, mode omitted) x (Python values positionally / int32 by keyword), the 30 key names and the 28 names of 8..14 sharps or flats; non-trivial = minor, out of range or unknown mode",
         known={"fifths-below-minus-7-wrap": known_fifths_wrap},
     ),
-    SubCheck("mode_clef_codes", oracle_codes, enumerate=enum_codes, shards=1, rule="all mode spellings and clef signs/codes"),
-    SubCheck("durations_tempo_units", oracle_durs, enumerate=enum_durs, shards=4, rule="types x dots 0..3 x tuplet ratios x 17 divisions; tuplet multipliers; tempo units x dots; non-trivial = dotted/tuplet/non-quarter unit"),
-    SubCheck("intervals", oracle_intervals, enumerate=enum_intervals, shards=1, rule="numbers 1..7 x qualities (valid and invalid) x directions; non-trivial = valid and not P/M"),
+    SubCheck("mode_clef_codes", oracle_codes, enumerate=enum_codes, shards=1, rule="all mode spellings and clef signs/codes, codes also as numpy integers"),
+    SubCheck("durations_tempo_units", oracle_durs, enumerate=enum_durs, shards=4, rule="types x dots 0..3 x tuplet ratios x 17 divisions; tuplet multipliers for all type pairs and without types; tempo units x dots (also with blanks, as Tempo objects, Tempo without unit); non-trivial = dotted/tuplet/non-quarter unit"),
+    SubCheck("intervals", oracle_intervals, enumerate=enum_intervals, shards=1, rule="numbers 1..7 x qualities (valid and invalid) x directions (also omitted), compound numbers 8..15; non-trivial = valid and not P/M"),
     SubCheck("tables", oracle_tables, enumerate=enum_tables, shards=1, rule="agreement of the independent pitch tables"),
-    SubCheck("frequency", oracle_freq, enumerate=enum_freq, shards=2, rule="MIDI 0..127 x six A4 values, scalar and array; non-trivial = A4 != 440"),
+    SubCheck(
+        "frequency",
+        oracle_freq,
+        enumerate=enum_freq,
+        shards=2,
+        rule="MIDI 0..127 x six A4 values and the default, scalars of every numeric type and arrays; non-trivial = A4 != 440",
+        known={"frequency-float32-scalar-none": known_freq_float32_none},
+    ),
     SubCheck(
         "seconds_ticks",
         oracle_ticks,
         strategy=strat_ticks,
         budget={"quick": 1500, "thorough": 20000},
-        rule="(ppq, mpq, times, dtype) sampled; non-trivial = numpy scalar/array input or non-default ppq/mpq",
-        floors={"dtype:float64": 0.05, "dtype:int64": 0.05},
+        rule="(ppq, mpq, times, dtype, calling convention, parameter types, array shape) sampled; non-trivial = numpy scalar/array input or non-default ppq/mpq",
+        floors={
+            "dtype:float64": 0.05,
+            "dtype:int64": 0.05,
+            "call:defaults": 0.08,
+            "call:keyword": 0.08,
+            "call:alias_t": 0.08,
+            "params:mpq_bpm": 0.05,
+            "params:numpy": 0.05,
+            "array-shape:empty": 0.05,
+            "array-shape:2d": 0.05,
+            "ticks-int32-product-beyond-2^31": 0.1,
+        },
+        known={"ticks-int32-overflow": known_ticks_int32},
     ),
 ]
